@@ -131,8 +131,18 @@ fn plans(prop: &str, tier: &str) -> Vec<Plan> {
                     }
                     ("C02", true, false) => vec![(2, 2, 0), (1, 3, 0), (2, 1, 1)],
                     ("C02", true, true) => vec![(2, 2, 0), (1, 2, 1)],
-                    ("C02", false, false) => vec![(3, 3, 0), (2, 4, 0), (2, 2, 1), (1, 2, 2)],
-                    ("C02", false, true) => vec![(2, 3, 0), (2, 2, 1), (1, 2, 2)],
+                    ("C02", false, false) => match p {
+                        0 => vec![(3, 3, 0), (2, 4, 0), (2, 2, 1), (1, 2, 2)],
+                        4 | 2 => vec![(2, 2, 0), (1, 2, 1)],
+                        _ => vec![(2, 3, 0), (1, 4, 0), (2, 2, 1), (1, 2, 2)],
+                    },
+                    ("C02", false, true) => {
+                        if p == 4 || p == 2 {
+                            vec![(1, 2, 1)]
+                        } else {
+                            vec![(2, 2, 0), (1, 3, 0), (1, 2, 1), (1, 1, 2)]
+                        }
+                    }
                     ("C05", true, false) => vec![(2, 1, 0), (1, 1, if p0 { 2 } else { 1 })],
                     ("C05", true, true) => vec![(1, 1, if p0 { 2 } else { 1 })],
                     ("C05", false, _) => vec![(3, 1, 0), (2, 1, 1), (1, 1, 2)],
